@@ -1,5 +1,5 @@
 """One function per property: check_<id>(tier) -> exit code."""
-import json, os, sys, shutil
+import json, os, sys, shutil, re
 from common import *
 import lockstep, random
 import gen_linear as GL
@@ -96,6 +96,47 @@ def loops_extra(tier):
             for f in sorted(glob.glob(os.path.join(VERIF, "corpus", "loops", "*.sc")))]
 
 
+def mc_heap(pid, tier, invariant):
+    """design-level model: exhaustive BFS to a level bound plus random deep histories (TLC simulation) of spec/AxCutHeap.tla"""
+    work = os.path.join(WORK, pid, "mc_heap")
+    os.makedirs(work, exist_ok=True)
+    out = {"states": 0, "transitions": 0, "viols": [], "notes": []}
+    runs = [("bfs", dict(MaxVars=3, MaxBlocks=8, Arities="{0,1,2,4,5}", MaxLevel=T(tier, 4, 6)), None),
+            ("sim", dict(MaxVars=4, MaxBlocks=14, Arities="{0,1,2,3,4,5,7}", MaxLevel=60), "num=%d" % T(tier, 3, 200))]
+    for mode, consts, sim in runs:
+        cfg = "SPECIFICATION Spec\nCONSTANTS\n" + "".join("  %s = %s\n" % kv for kv in consts.items()) + "  FootK = 1\n" + \
+              "INVARIANT %s\nCONSTRAINT Bounded\nVIEW StateView\nCHECK_DEADLOCK FALSE\n" % invariant
+        cname = "MC_Heap_%s_%s.cfg" % (pid, mode)
+        open(os.path.join(SPEC, cname), "w").write(cfg)
+        extra = ["-depth", "45"] if sim else None
+        try:
+            r = run_tlc("MC_Heap", cname, os.path.join(work, mode), {}, timeout=(T(tier, 120, 3600) if sim else T(tier, 240, 7200)), simulate=sim, extra=extra)
+        except ToolError as e:
+            if sim:   # simulation is time-boxed: a timeout only ends the sampling; what it checked so far is in the output file
+                txt = open(os.path.join(work, mode, "tlc-MC_Heap.out")).read()
+                if "violated" in txt:
+                    rp = save_replay(pid, "design-%s-sim" % invariant, {"invariant": invariant, "tlc_output": txt[-6000:]})
+                    out["viols"].append({"signature": "%s:design:%s" % (pid, invariant), "replay": rp, "what": "design model violates %s (simulation)" % invariant})
+                m = re.findall(r"(\d+) states checked, (\d+) traces generated", txt)
+                out["notes"].append("simulation time box reached after %s states on %s random histories" % (m[-1] if m else ("0", "0")))
+                continue
+            raise
+        txt = open(r["out"]).read()
+        if "is violated" in txt or "Invariant" in txt and "violated" in txt:
+            rp = save_replay(pid, "design-%s-%s" % (invariant, mode), {"invariant": invariant, "mode": mode, "constants": consts, "tlc_output": txt[-6000:]})
+            out["viols"].append({"signature": "%s:design:%s" % (pid, invariant), "replay": rp,
+                                 "what": "the allocator design model spec/AxCutHeap.tla violates %s (%s, %s)" % (invariant, mode, consts)})
+        elif r["rc"] != 0 and not sim:
+            raise ToolError("MC_Heap (%s) failed: %s" % (mode, (r["errors"] or [txt[-300:]])[:2]))
+        if r["states"]:
+            out["states"] += r["distinct"] or 0
+            out["transitions"] += r["states"] or 0
+        m = re.search(r"(\d+) states checked, (\d+) traces generated", txt)
+        if sim and m:
+            out["notes"].append("simulation: %s states checked on %s random histories" % (m.group(1), m.group(2)))
+    return out
+
+
 def check_C10(tier):
     def same_frontier(art, index, args, work, stats):
         viols = []
@@ -113,18 +154,24 @@ def check_C10(tier):
                                   "what": "%s on %s: allocation frontier grows with the number of iterations %s" % (name, be, fs)})
             stats.setdefault(be, {})["loop_frontiers"] = byprog
         return viols
-    plan = T(tier, [("objects", 80), ("base", 60)], [("objects", 1500), ("base", 1500)])
+    plan = T(tier, [("objects", 80), ("base", 60), ("noprint", 40)], [("objects", 1500), ("base", 1500), ("noprint", 800)])
+    mc = mc_heap("C10", tier, "Footprint")
     return lockstep.lockstep_check(
-        "C10", tier, ["x86", "a64", "rv64"], plan, maxsteps=T(tier, 60000, 1500000), nblocks=160, timeout=T(tier, 900, 7000),
+        "C10", tier, ["x86", "a64", "rv64"], plan, extra_viols=mc["viols"],
+        extra_cov={"design_model": {"module": "spec/AxCutHeap.tla", "invariant": "Footprint (frontier <= peak reachable + 1)", "distinct_states": mc["states"],
+                                    "states_generated": mc["transitions"], "notes": mc["notes"]}}, maxsteps=T(tier, 60000, 1500000), nblocks=160, timeout=T(tier, 900, 7000),
         extra=loops_extra(tier), post=same_frontier, level="model_checking",
         extra_rule="Footprint: frontier <= peak reachable blocks + 2 at every statement boundary; build-and-drop loops "
                    "(corpus/loops) run with n = 0,1,4,16(,64,256) iterations and must end with the same frontier for n >= 4")
 
 
 def check_C09(tier):
-    plan = T(tier, [("objects", 90), ("base", 70), ("spill", 30)], [("objects", 2000), ("base", 1500), ("spill", 600)])
+    plan = T(tier, [("objects", 90), ("base", 70), ("spill", 30), ("noprint", 40)], [("objects", 2000), ("base", 1500), ("spill", 600), ("noprint", 800)])
+    mc = mc_heap("C09", tier, "HeapConsistent")
     return lockstep.lockstep_check(
-        "C09", tier, ["x86", "a64", "rv64"], plan, maxsteps=T(tier, 20000, 200000), nblocks=160, timeout=T(tier, 900, 7000),
+        "C09", tier, ["x86", "a64", "rv64"], plan, extra_viols=mc["viols"],
+        extra_cov={"design_model": {"module": "spec/AxCutHeap.tla", "invariant": "HeapConsistent (HeapInv in every reachable state)", "distinct_states": mc["states"],
+                                    "states_generated": mc["transitions"], "notes": mc["notes"]}}, maxsteps=T(tier, 20000, 200000), nblocks=160, timeout=T(tier, 900, 7000),
         extra=loops_extra("quick"), level="model_checking",
         extra_rule="HeapInv (spec/HeapInv.tla) evaluated on the concrete heap words and registers at every statement marker; "
                    "MemInBounds at every instruction")
